@@ -34,6 +34,18 @@ CHECKS = {
             "note": TINY, "technique": MC},
     "C12": {"text": "TLC checks the per-step potential lemmas (ANS: value grows by at most 2^P/p (1+2^-(S-W-P)); range: range shrinks by at most p/2^P (1-2^-(S-W-P))) and word bounds in every state; the harness evaluates the same inequalities and the telescoped bit bound in exact integer arithmetic on the real coders.",
             "note": TINY, "technique": MC},
+    "C03": {"text": "FixedPoint.tla predicts the exact table for every enumerated constructor input whose arithmetic is exact (all fixed-point tables up to length 4, every UniformModel, fast float constructors on dyadic weights, LeakyQuantizer on step CDFs incl. supports spanning a whole i8/u8 with adversarial inverse hints); TLC checks the contract (tiling, round trip) on every predicted table and the harness compares encoder view, decoder view at every quantile and out-of-support symbols of every representation with the prediction.",
+            "note": TINY + "; float arithmetic is exact on the dyadic inputs used (no prediction for arbitrary floats yet)", "technique": MC},
+    "C05": {"text": "For every model predicted by FixedPoint.tla every representation and conversion reachable from it (views, lookup models, generic encoder/decoder/lookup conversions, lazy vs eager, hash-table encoder vs searched decoder, symbol_table) is compared with the one spec table.",
+            "note": TINY, "technique": MC},
+    "C15": {"text": "Huffman.tla builds the codebook with the implementation's (weight, index) merge order; TLC checks prefix-freeness, Kraft equality, optimality against the minimum over all merge orders and decode-back for every weight vector of length <= 5 over 0..4; the real encoder and decoder trees (integer and float constructors) must reproduce every codeword in prefix and suffix form, decode it, and reject out-of-alphabet symbols.",
+            "note": "bounded alphabet size and weights; ties and zeros included", "technique": MC},
+    "C16": {"text": "BitCoder.tla (refinement mapping to an abstract bit sequence) is explored over all histories of write/read/guard/re-import up to 7-10 bits at W in {2,3,8}; TLC checks LIFO/FIFO, length and re-import laws; a shortest history to every reachable coder state is replayed on the real StackCoder/QueueEncoder/QueueDecoder. ExpGolomb.tla predicts every codeword of u8, the first 3000 of u16..u64 and the 20 values below the maximum of every width.",
+            "note": "bounded bit depth; bit coders have private state, so states are reached through public histories only", "technique": MC},
+    "C17": {"text": "Backend.tla models Vec/SmallVec, Cursor and Reverse<Cursor>; TLC checks the contract laws (remaining/space exactness, sticky EOF, write/read order, seek, reversal is a no-op) in every state with buffers up to 3 words; every operation from every state is replayed on Vec, SmallVec, Cursor over Vec/Box/&mut/& and their Reverse and compared (result, buffer, position).",
+            "note": "iterator/callback adapters not yet covered", "technique": MC},
+    "C19": {"text": "TLC enumerates every fixed-point table of length <= 4 (entries 0..2^B-1, with and without inferred last probability, symbol-count mismatches, duplicates), every UniformModel range, dyadic weight vectors and step CDFs, and decides acceptance with FixedPoint.tla; the real constructors must refuse (error or panic) what the spec refuses or else return a model satisfying the C03 contract, and must accept valid tables with an inferred last probability at every precision.",
+            "note": TINY + "; float-class inputs (NaN, negative, infinite) not yet covered", "technique": MC},
     "C18": {"text": "Size, emptiness and exhaustion queries are compared with the length of the actual export in every spec-enumerated state (ANS) and after every prefix of every message (range coder).",
             "note": TINY + "; model diagnostics not yet covered", "technique": MC},
 }
